@@ -205,7 +205,7 @@ mod verif_c03_packet {
         kani::cover!(matches!(cids, Cids::Ok { dl: 0, sl: 0, pos: 2 }) && n == 2, "C03.packet.header.hs0rtt.reach_empty_cids");
         kani::cover!(cids == Cids::TooLong && n == 1, "C03.packet.header.hs0rtt.reach_dcid_len_over_20");
         kani::cover!(cids == Cids::TooLong && b[0] == 0, "C03.packet.header.hs0rtt.reach_scid_len_over_20");
-        kani::cover!(cids == Cids::Incomplete && n == 45, "C03.packet.header.hs0rtt.reach_truncated");
+        kani::cover!(cids == Cids::Incomplete && n == 41, "C03.packet.header.hs0rtt.reach_truncated");
     }
 
     /// Initial: Token Length (i) + Token behind the connection ids (RFC 9000 §17.2.2).
